@@ -1,6 +1,8 @@
 package main
 
 import (
+	"runtime"
+	"time"
 	"fmt"
 	"go/ast"
 	"go/token"
@@ -21,7 +23,7 @@ func VerifyFunc(P *Program, fn *ssa.Function, spec *FuncSpec, prop string) (ex *
 		env:      &TEnv{mode: spec.Mode, d: NewDecls(), subst: map[*types.TypeParam]types.Type{}},
 		initHeap: map[string]*Term{}, axiomSet: map[string]bool{}, strs: map[string]*Term{},
 		entryVals: map[string]*Val{}, paramTypes: map[string]types.Type{}, ghostVals: map[string]*SV{},
-		siteOrd: map[ssa.Instruction]int{}, maxPaths: 4000, inputNames: map[string]string{},
+		siteOrd: map[ssa.Instruction]int{}, maxPaths: maxPathsDefault, inputNames: map[string]string{},
 		trusted: map[string]bool{}, callees: map[string]bool{}, usedSpecFn: map[string]bool{}, recDefs: map[string]bool{},
 	}
 	defer func() {
@@ -223,6 +225,7 @@ func getLoops(fn *ssa.Function) *loopInfo {
 }
 
 func (ex *Exec) runBlock(st *State, fr *Frame, b *ssa.BasicBlock, pred *ssa.BasicBlock) {
+	ex.checkBudget()
 	ex.env.subst = fr.subst
 	li := getLoops(fr.fn)
 	if n, isHeader := li.ord[b]; isHeader {
@@ -569,6 +572,7 @@ func (ex *Exec) nilCheck(st *State, v *Val, in ssa.Instruction, what string) {
 // step executes a non-control instruction. A non-nil result means the
 // instruction forks; the caller passes the continuation.
 func (ex *Exec) step(st *State, fr *Frame, in ssa.Instruction, b *ssa.BasicBlock, pred *ssa.BasicBlock) func(k func(*State)) {
+	ex.checkBudget()
 	switch x := in.(type) {
 	case *ssa.DebugRef:
 		return nil
@@ -1278,3 +1282,32 @@ type recvField struct {
 	Kind string // scalar | intslice | tpslice | skip
 	Type types.Type
 }
+
+// maxPathsDefault: path budget of one symbolic execution (lowered for the bounded stand-in)
+var maxPathsDefault = 4000
+
+// genDeadline: wall-clock limit of one symbolic execution (only set for the bounded stand-in)
+var genDeadline time.Time
+
+// checkBudget aborts the symbolic execution of the bounded stand-in when its time or memory budget is used up.
+func (ex *Exec) checkBudget() {
+	if genDeadline.IsZero() {
+		return
+	}
+	budgetTick++
+	if budgetTick%16 != 0 {
+		return
+	}
+	if time.Now().After(genDeadline) {
+		panic(oos("time budget of the bounded exploration exhausted"))
+	}
+	if budgetTick%4096 == 0 {
+		var ms runtime.MemStats
+		runtime.ReadMemStats(&ms)
+		if ms.HeapAlloc > 3<<30 {
+			panic(oos("time budget of the bounded exploration exhausted (memory)"))
+		}
+	}
+}
+
+var budgetTick int
